@@ -48,6 +48,13 @@ def check(ctx):
     # behaviours: one per transition of a bounded graph
     gen_consts = dict(BASE, MaxNow=1, MaxOps=3 if ctx.quick() else 4, CMaxRecords=1, CMaxProvKeys=1, CMaxProvPerKey=2)
     behs, gstats = tlc_generate(ctx, "KadStoreMC.tla", write_cfg(ctx, "gen.cfg", gen_consts, GEN_LINES))
+    # provider-ordering focus: one key, three remote providers + local, per-key bound 3 and 2
+    for bound in (3, 2):
+        bp, gp = tlc_generate(ctx, "KadStoreMC.tla", write_cfg(
+            ctx, "genp%d.cfg" % bound, dict(BASE, Keys={"k1"}, Sizes={1}, Exps="<- ExpsNever", NAddrs={0}, MaxNow=1,
+                                            MaxOps=4 if ctx.quick() else 5, CMaxRecords=1, CMaxProvKeys=1, CMaxProvPerKey=bound), GEN_LINES))
+        behs += bp
+        gstats["behaviours"] += gp["behaviours"]
     if not ctx.quick():
         b2, g2 = tlc_generate(ctx, "KadStoreMC.tla", write_cfg(
             ctx, "gen2.cfg", dict(BASE, MaxNow=2, MaxOps=3, CMaxRecords=2, CMaxProvKeys=2, CMaxProvPerKey=1), GEN_LINES))
